@@ -238,6 +238,42 @@ def run(ck):
           key='PROV-lookup|per-instance')
     from . import shared
     shared.truthy_zero(ck, [SB, VS, 'vermouth/rcsu/go_utils.py', 'vermouth/rcsu/go_pipeline.py'])
+    # ------------------------------------------------------------ KW: the settings given to GoPipeline.run_system reach the processors by *name*
+    gp = ck.index.mod('vermouth/rcsu/go_pipeline.py')
+    cli = ck.index.mod('bin/martinize2')
+    pl = gp.constants.get('GoPipeline')
+    procs = [u(e) for e in pl.args[0].elts] if isinstance(pl, ast.Call) and pl.args and isinstance(pl.args[0], ast.List) else []
+    ck.ob('KW-wiring', 'vermouth/rcsu/go_pipeline.py', procs == ['SetMoleculeMeta', 'VirtualSiteCreator', 'ComputeStructuralGoBias'],
+          'the Go pipeline is meta -> virtual sites -> structural bias ({})'.format(procs), key='KW-wiring|order')
+    ctor = {}
+    for name in procs:
+        hits = [(m_, q_, f_) for m_, q_, f_ in ck.index.all_functions() if q_ == name + '.__init__']
+        if len(hits) == 1:
+            f_ = hits[0][2]
+            pos_ = [a.arg for a in f_.args.args[1:]]
+            nd = len(f_.args.defaults)
+            ctor[name] = (pos_, set(pos_[:len(pos_) - nd]) if nd else set(pos_), f_.args.kwarg is not None)
+    calls = [c for c in ast.walk(cli.tree) if isinstance(c, ast.Call) and u(c.func) == 'GoPipeline.run_system']
+    ok = len(calls) == 1 and len(ctor) == len(procs) > 0
+    passed = {k.arg for k in calls[0].keywords if k.arg} if calls else set()
+    unconsumed = sorted(k for k in passed if not any(k in pos_ or kw_ for pos_, req_, kw_ in ctor.values()))
+    missing = sorted((name, r) for name, (pos_, req_, kw_) in ctor.items() for r in req_ if r not in passed)
+    ck.ob('KW-wiring', cli.loc(calls[0]) if calls else 'bin/martinize2', ok and not unconsumed and not missing,
+          'the pipeline hands each processor the run_system keywords whose *names* its constructor declares (others are dropped silently): every keyword the CLI passes '
+          '({}) is declared by some constructor (undeclared: {}), and every required constructor parameter is passed (missing: {})'.format(sorted(passed), unconsumed, missing),
+          key='KW-wiring|consumed')
+    shared_names = ['go_anchor_bead']
+    for nm in shared_names:
+        users = [name for name, (pos_, req_, kw_) in ctor.items() if nm in pos_]
+        ck.ob('KW-wiring', 'vermouth/rcsu/go_pipeline.py', set(users) >= {'VirtualSiteCreator', 'ComputeStructuralGoBias'},
+              'both the site creator and the contact selector take the backbone particle name under the keyword `{}` (declared by: {}) -- sites and contacts use the same particle'.format(nm, users),
+              key='KW-wiring|' + nm)
+    rsys = ck.need(method(gp.cls('GoProcessorPipeline'), 'run_system'), 'GoProcessorPipeline.run_system vanished')
+    ck.analysed(gp, rsys)
+    src = u(rsys)
+    ok = 'process_args = inspect.getfullargspec(processor).args' in src and 'processor(**process_args_values).run_system(system)' in src and \
+        'for processor in self.processor_list:' in src and not any(isinstance(n, (ast.Break, ast.Continue, ast.Return)) for l in ast.walk(rsys) if isinstance(l, ast.For) for n in ast.walk(l))
+    ck.ob('KW-wiring', gp.loc(rsys), ok, 'every processor of the list is constructed from the matching keywords and run on the system, in order', key='KW-wiring|run')
     # ------------------------------------------------------------ SIB: every producer of the contact list uses the layout the consumer unpacks
     cmm = ck.index.mod('vermouth/rcsu/contact_map.py')
     rgm_ = cmm.func('read_go_map')
